@@ -45,6 +45,19 @@ CLAIMS = {
         note="An operation is in flight from the moment the library calls the storage until it returns (time parked "
              "at the gate included).",
         ref="3 C04", technique=TECH + " (CopyMon.tla accounting monitors)"),
+    "C05": dict(
+        text="VerifyIngest.tla states the requirement from the property text (MustFail / Trailing / Good over scripted "
+             "readers and descriptors) and transcribes VerifyReader.Read/Verify, ensureEOF, ReadAll (io.ReadFull), "
+             "CopyBuffer (io.CopyBuffer) and LimitStorage; MCVerify checks on every case that the algorithm meets the "
+             "requirement; the emitted case space is replayed into ReadAll, FetchAll, NewVerifyReader and the Push paths "
+             "of memory, OCI store, OCI storage, file store (named, unnamed, custom fallback) and LimitStorage, plus "
+             "concurrent good/bad pushers under one digest; VerifyJudge.tla judges every outcome (error, Exists, Fetch "
+             "bytes, files under blobs/) against the requirement and against the transcribed algorithm.",
+        note="Streams are finite (<= 2/3 bytes quick/thorough, sizes -1..len+1); a reader that returns (0,nil) for ever "
+             "is out of scope. The caching proxy (internal/cas.Proxy) is an internal package and is exercised only "
+             "through the copy family. A Push may accept or reject bytes beyond Size (only readers must report them).",
+        ref="3 C05", technique="TLA+ requirement + transcribed algorithm model-checked with TLC; TLC-emitted cases replayed "
+                              "into the code and judged by TLC"),
     "C19": dict(
         text="Pack.tla states the four packers as a decision table over (version, artifactType class, config class, "
              "config annotations, layers, subject, annotations, target); PackCases.tla model-checks the table and emits "
